@@ -28,24 +28,29 @@ CheckGraph(n) ==
       E   == EdgeSet(g.es)
       out == [raised |-> g.raised, order |-> g.order]
       alg == AlgGraphRun(g.es)
-  IN /\ (Cyclic(E) = CyclicTC(E)) \/ Say("graph", n, "ref-laws")
+  \* (the transcription is evaluated FIRST: with `alg` forced after E, TLC 1.8 ended about every second run of 400 random
+  \* graphs with a Java StackOverflowError on one 15-edge observation -- whatever the thread stack size, 1 GB included, and
+  \* never with the clause alone or in front; 0 of 30 runs in this order.  The harness also gives every run a 64 MB stack
+  \* and repeats a run that ended at machinery level.)
+  IN /\ (alg = out) \/ Say("graph", n, "alg")
+     /\ (Cyclic(E) = CyclicTC(E)) \/ Say("graph", n, "ref-laws")
      /\ (Cyclic(E) => g.raised) \/ Say("graph", n, "ref-cycle-not-reported")
      /\ (~Cyclic(E) => ~g.raised) \/ Say("graph", n, "ref-raises-on-dag")
      /\ ((~Cyclic(E) /\ ~g.raised) => IsPermOf(g.order, NodesOf(E))) \/ Say("graph", n, "ref-not-a-permutation")
      /\ ((~Cyclic(E) /\ ~g.raised /\ IsPermOf(g.order, NodesOf(E))) => IsTopo(g.order, E)) \/ Say("graph", n, "ref-not-topological")
-     /\ (alg = out) \/ Say("graph", n, "alg")
 
 \* ------------------------------------------------------------------ instantiate_classes
 SeqSet(s)   == {s[n] : n \in DOMAIN s}
 KwFn(pairs) == [p \in {pairs[n][1] : n \in DOMAIN pairs} |-> pairs[CHOOSE n \in DOMAIN pairs : pairs[n][1] = p][2]]
-ToShape(j)  == [decl |-> j.decl, objs |-> SeqSet(j.objs), plains |-> SeqSet(j.plains), links |-> j.links]
+ToShape(j)  == IF "sig" \in DOMAIN j THEN [decl |-> j.decl, objs |-> SeqSet(j.objs), plains |-> SeqSet(j.plains), links |-> j.links, sig |-> j.sig]
+               ELSE [decl |-> j.decl, objs |-> SeqSet(j.objs), plains |-> SeqSet(j.plains), links |-> j.links]
 ToLog(jl)   == [n \in DOMAIN jl |-> IF jl[n].ev = "new" THEN [ev |-> "new", obj |-> jl[n].obj, kw |-> KwFn(jl[n].kw)]
                                     ELSE [ev |-> "fn", link |-> jl[n].link, args |-> jl[n].args]]
 Plan(sh)    == PlannedComponents(sh, InstantiationOrder(sh, sh.links).order)
 \* the recorded deviations, as in MC_LinksInst
 NestedTarget(sh, l) == \E c \in CompDests(sh) : Inside(l.tobj, c)
 MisorderedLinks(sh, plan) == {x \in DOMAIN sh.links : NestedTarget(sh, sh.links[x]) /\ \E j \in DOMAIN sh.links[x].srcs :
-                                 Index(plan, OwnerOf(sh, sh.links[x].tobj)) < Index(plan, sh.links[x].srcs[j].obj)}
+                                 Index(plan, OwnerOf(sh, sh.links[x].tobj)) < Index(plan, SrcDest(sh, sh.links[x].srcs[j]))}
 UnreachableLinks(sh, plan) == {x \in DOMAIN sh.links : \E j \in DOMAIN sh.links[x].srcs : \E g \in CompDests(sh) :
                                  /\ IsGroup(sh, g) /\ Inside(sh.links[x].srcs[j].obj, g)
                                  /\ (sh.links[x].tobj \in sh.plains \/ Index(plan, g) < Index(plan, OwnerOf(sh, sh.links[x].tobj)))}
@@ -55,44 +60,62 @@ UnreachableLinks(sh, plan) == {x \in DOMAIN sh.links : \E j \in DOMAIN sh.links[
 \* that source may then see either instance: occurrence numbers of such sources are not compared.)
 AnyOcc(v, S) == IF v.k \in {"obj", "attr"} /\ v.o \in S THEN [v EXCEPT !.n = 1] ELSE v
 NormVal(v, S) == IF v.k = "fn" THEN [v EXCEPT !.args = [j \in DOMAIN v.args |-> AnyOcc(v.args[j], S)]] ELSE AnyOcc(v, S)
+LastNew(log, o) == CHOOSE x \in NewOf(log, o) : \A y \in NewOf(log, o) : y <= x
 Confined(sh, log, bad) ==
   LET okl  == {x \in DOMAIN sh.links : x \notin bad}
-      srcs == UNION {{sh.links[x].srcs[j].obj : j \in DOMAIN sh.links[x].srcs} : x \in bad}
+      srcs0 == UNION {{sh.links[x].srcs[j].obj : j \in DOMAIN sh.links[x].srcs} : x \in bad}
+      \* (round 4: the premature instance of such a source is built from its spec, nested classes included)
+      srcs == srcs0 \cup {o \in sh.objs : \E q \in srcs0 : Inside(o, q)}
   IN /\ \A o \in sh.objs \ srcs : Cardinality(NewOf(log, o)) = 1
-     /\ \A o \in srcs : Cardinality(NewOf(log, o)) \in {1, 2}
+     \* (round 4: a source that feeds k misordered links as an un-instantiated spec is instantiated once per such link)
+     /\ \A o \in srcs \cap sh.objs : Cardinality(NewOf(log, o)) \in 1..(1 + Cardinality(bad))
      /\ \A n \in News(log) : log[n].obj \in sh.objs
-     /\ \A x \in okl : /\ \A j \in DOMAIN sh.links[x].srcs : sh.links[x].tobj \in sh.objs =>
-                               FirstNew(log, sh.links[x].srcs[j].obj) < FirstNew(log, sh.links[x].tobj)
-                        /\ \A n \in NewOf(log, sh.links[x].tobj) :
-                               sh.links[x].param \in DOMAIN log[n].kw /\ NormVal(log[n].kw[sh.links[x].param], srcs) = Expected(sh.links, x)
+     \* (round 4: when such a twice-constructed source is also the TARGET of a correct link, its premature first instance
+     \* -- built inside the misordered target -- has not been fed yet: the correct link is checked on the last instance)
+     /\ \A x \in okl : \A r \in Receivers(sh, sh.links[x]) :
+           /\ \A j \in DOMAIN sh.links[x].srcs : sh.links[x].srcs[j].obj \in sh.objs =>
+                   FirstNew(log, sh.links[x].srcs[j].obj) < (IF r \in srcs THEN LastNew(log, r) ELSE FirstNew(log, r))
+           /\ LiveLink(sh, sh.links[x]) => \A n \in (IF r \in srcs THEN {LastNew(log, r)} ELSE NewOf(log, r)) :
+                   sh.links[x].param \in DOMAIN log[n].kw /\ NormVal(log[n].kw[sh.links[x].param], srcs) = Expected(sh.links, x)
 
+\* Round 4: shapes with List[Class] targets, Optional arguments that are None, sources nested inside a class argument and
+\* nested links (see MC_LinksExt).  Three more recorded deviations, each reported only when the real code behaves exactly
+\* as the transcription predicts: nested-link-owner-targeted / nested-cycle-accepted (link_arguments) and
+\* nested-attr-source (the value of a source two or more names below its action).  The run of a shape with nested links
+\* (applied by the type hint inside the class argument) is validated against the Ref clauses only.
 CheckInst(n) ==
   LET ob    == Insts[n]
       sh    == ToShape(ob.shape)
       log   == ToLog(ob.log)
       final == KwFn(ob.final)
       acc   == AllAccepted(sh, ob.add)
-      alg   == AlgInstantiate(sh)
+      nst   == NestedLinks(sh) # {}
+      alg   == IF nst THEN MachineInit ELSE AlgInstantiate(sh)
+      algadd == AlgAddLinks(sh, 1)
       ran   == ob.ran /\ acc /\ Feasible(sh)
       plan  == Plan(sh)
       mis   == MisorderedLinks(sh, plan)
       unr   == UnreachableLinks(sh, plan)
+      leaf  == LeafLinks(sh)
       asalg == ob.failed = alg.failed /\ (~alg.failed => (log = alg.log /\ final = FinalPlain(sh, alg)))
       good  == ~ob.failed /\ RefInstOK(sh, log) /\ RefPlainOK(sh, final)
-  IN /\ RefAddOK(sh, ob.add) \/ Say("inst", n, "ref-add")
+  IN /\ RefAddOK(sh, ob.add) \/ Say("inst", n, IF ob.add = algadd /\ NestedCycleAccepted(sh, ob.add) THEN "ref-dev-nested-cycle"
+                                                ELSE IF ob.add = algadd /\ OwnerTargeted(sh, Len(ob.add)) THEN "ref-dev-owner-targeted"
+                                                ELSE "ref-add")
      /\ (ob.ran = acc) \/ Say("inst", n, "ref-add")
-     /\ (ob.add = AlgAddLinks(sh, 1)) \/ Say("inst", n, "alg-add")
+     /\ (ob.add = algadd) \/ Say("inst", n, "alg-add")
      /\ IF ~ran THEN TRUE
         ELSE IF mis # {} THEN good \/ Say("inst", n, IF ob.failed THEN "ref-dev-target-raises"
-                                                     ELSE IF Confined(sh, log, mis) THEN "ref-dev-target-confined" ELSE "ref-dev-other")
+                                                     ELSE IF Confined(sh, log, mis \cup leaf) THEN "ref-dev-target-confined" ELSE "ref-dev-other")
         ELSE IF unr # {} THEN good \/ Say("inst", n, IF ob.failed /\ alg.failed THEN "ref-dev-source-raises" ELSE "ref-dev-other")
+        ELSE IF leaf # {} THEN good \/ Say("inst", n, IF ~ob.failed /\ (nst \/ asalg) /\ Confined(sh, log, leaf) THEN "ref-dev-leaf" ELSE "ref-dev-other")
         ELSE /\ ~ob.failed \/ Say("inst", n, "ref-raised")
              /\ (ob.failed \/ ExactlyOnce(log, sh.objs)) \/ Say("inst", n, "ref-exactly-once")
-             /\ (ob.failed \/ BuiltBefore(log, sh.links, sh.objs)) \/ Say("inst", n, "ref-built-before")
-             /\ (ob.failed \/ ReceivesSource(log, sh.links)) \/ Say("inst", n, "ref-receives-source")
+             /\ (ob.failed \/ BuiltBeforeX(sh, log)) \/ Say("inst", n, "ref-built-before")
+             /\ (ob.failed \/ ReceivesSourceX(sh, log)) \/ Say("inst", n, "ref-receives-source")
              /\ (ob.failed \/ RefPlainOK(sh, final)) \/ Say("inst", n, "ref-plain-target")
-             /\ (ob.failed \/ FnCalledOnce(log, sh.links)) \/ Say("inst", n, "alg-fn-calls")
-     /\ (~ran \/ mis # {} \/ asalg) \/ Say("inst", n, "alg")
+             /\ (ob.failed \/ FnCalledOnceX(sh, log)) \/ Say("inst", n, "alg-fn-calls")
+     /\ (~ran \/ mis # {} \/ nst \/ asalg) \/ Say("inst", n, "alg")
 
 Check == IF i <= NG THEN CheckGraph(i) ELSE CheckInst(i - NG)
 Inv == Check \/ TRUE
